@@ -59,7 +59,11 @@ def classify(ex):
 
 def try_call(cls, kws):
     try:
-        cls(**{k: 0 for k in kws})
+        obj = cls(**{k: 0 for k in kws})
+        # kwargs kept in an attribute (self._kw<i> = kwargs): the consuming method a<i> is called right after construction
+        for name in sorted(n for n in dir(obj) if re.fullmatch(r"a\d+", n)):
+            if hasattr(obj, "_kw" + name[1:]):
+                getattr(obj, name)()
         return "ok"
     except RecursionError:
         return "other"
